@@ -213,4 +213,58 @@ Section Batch.
     apply rel_step_shape; [|intros; apply (rel_span1_finish k Hk); assumption|exact Hb|exact Hts].
     intros s s' g g' Hs Hg. apply rel_m_span1_item; assumption.
   Qed.
+
+  (* ---- the batch loop *)
+  Lemma rel_map_view ax (l l' : list (@GItem XQ)) : Forall2 (gitem_rel k) l l' -> map (view ax) l' = map (view ax) l.
+  Proof. induction 1 as [|x x' r r' Hx Hr IH]; cbn [map]; [reflexivity|]. rewrite (view_rel k ax _ _ Hx), IH. reflexivity. Qed.
+
+  Lemma rel_m_process_batch ax inner inner' avail avail' fp ot ot' oadj oadj' ffs ffs' b b' flex ts ts' :
+    sz_rel O inner inner' -> gavail_rel k avail avail' -> tracks_rel k ot ot' -> L oadj oadj' -> dl ffs ffs' ->
+    Forall2 (gitem_rel k) b b' -> tracks_rel k ts ts' ->
+    ProgRel k VB (m_process_batch ax inner avail fp ot oadj ffs b flex ts) (m_process_batch ax inner' avail' fp ot' oadj' ffs' b' flex ts').
+  Proof.
+    intros Hin Hav Hot Hadj Hffs Hb Hts. unfold m_process_batch. cbv zeta.
+    assert (Esp : match b' with g :: _ => it_span (view ax g) | [] => 1%nat end = match b with g :: _ => it_span (view ax g) | [] => 1%nat end).
+    { destruct Hb as [|x x' r r' Hx Hr]; [reflexivity|]. rewrite (view_rel k ax _ _ Hx). reflexivity. }
+    rewrite Esp. unfold neb. rewrite (dl_eqb _ _ _ _ Hffs dl_zero).
+    destruct (negb flex && Nat.eqb match b with g :: _ => it_span (view ax g) | [] => 1%nat end 1).
+    - apply rel_m_span1_batch; assumption.
+    - apply rel_m_general_batch; assumption.
+  Qed.
+
+  Lemma rel_m_batch_loop ax inner inner' avail avail' fp ot ot' oadj oadj' ffs ffs' :
+    sz_rel O inner inner' -> gavail_rel k avail avail' -> tracks_rel k ot ot' -> L oadj oadj' -> dl ffs ffs' ->
+    forall fuel off items items' ts ts', Forall2 (gitem_rel k) items items' -> tracks_rel k ts ts' ->
+    ProgRel k VB (m_batch_loop ax inner avail fp ot oadj fuel ffs off items ts) (m_batch_loop ax inner' avail' fp ot' oadj' fuel ffs' off items' ts').
+  Proof.
+    intros Hin Hav Hot Hadj Hffs. induction fuel as [|f IH]; intros off items items' ts ts' Hit Hts; cbn [m_batch_loop].
+    - constructor. split; assumption.
+    - rewrite (rel_map_view ax _ _ Hit).
+      destruct (next_batch off (map (view ax) items)) as [[next flex]|]; [|constructor; split; assumption].
+      cbv zeta. eapply pbind_rel.
+      + apply rel_m_process_batch; try assumption. apply rel_firstn. apply rel_skipn. exact Hit.
+      + intros [t1 b1] [t1' b1'] [Ht1 Hb1]. cbn [fst snd] in Ht1, Hb1.
+        assert (Hit' : Forall2 (gitem_rel k) (firstn off items ++ b1 ++ skipn next items) (firstn off items' ++ b1' ++ skipn next items')).
+        { apply rel_app; [apply rel_firstn; exact Hit|]. apply rel_app; [exact Hb1|apply rel_skipn; exact Hit]. }
+        destruct flex; [constructor; split; assumption|]. apply IH; assumption.
+  Qed.
+
+  (* ---- resolve_intrinsic_track_sizes *)
+  Theorem rel_m_resolve_intrinsic ax inner inner' avail avail' fp ot ot' oadj oadj' items items' ts ts' :
+    sz_rel O inner inner' -> gavail_rel k avail avail' -> tracks_rel k ot ot' -> L oadj oadj' ->
+    Forall2 (gitem_rel k) items items' -> tracks_rel k ts ts' ->
+    ProgRel k VB (m_resolve_intrinsic ax inner avail fp ot oadj items ts) (m_resolve_intrinsic ax inner' avail' fp ot' oadj' items' ts').
+  Proof.
+    intros Hin Hav Hot Hadj Hit Hts. unfold m_resolve_intrinsic. cbv zeta. rewrite (rel_length _ _ _ Hit).
+    eapply pbind_rel.
+    - apply rel_m_batch_loop; try assumption.
+      + apply rel_fsum_dl. apply (rel_map (track_rel k) dl); [apply rel_flex_factor|exact Hts].
+      + apply (rel_sort_by_items (gitem_rel k)); [|exact Hit].
+        intros a a' c c' Ha Hc. rewrite (view_rel k ax _ _ Ha), (view_rel k ax _ _ Hc). reflexivity.
+    - intros [t1 b1] [t1' b1'] [Ht1 Hb1]. cbn [fst snd] in Ht1, Hb1. constructor. split; cbn [fst snd]; [|exact Hb1].
+      apply (rel_finish_infinite_limits k Hk). exact Ht1.
+  Qed.
 End Batch.
+
+(* at k = 1 the two threshold hypotheses hold: the sizing phase maps equal-as-numbers inputs to equal-as-numbers outputs *)
+Definition rel_m_resolve_intrinsic_one := rel_m_resolve_intrinsic 1 eq_refl thr_one base_thr_one.
